@@ -882,6 +882,10 @@ class Oracle:
                     pr = parse_dec_exact(x.price)
                     if x.rem_base < 1 or (pr is not None and pr * x.rem_base != x.rem_quote):
                         out.append(("C11", None, "bid %s: unspent quote %d, price*unfilled is %s" % (x.key[:8], x.rem_quote, None if pr is None else pr * x.rem_base)))
+            for x in list(b.asks.values()) + [y for y in b.bids.values() if isinstance(y, fmt.Bid)]:
+                pv = parse_dec(x.price)
+                if pv is None or pv <= 0:
+                    out.append(("C11", None, "order %s carries a price that is not a positive decimal numeral: %r" % (x.key[:8], x.price)))
             for a in b.asks.values():
                 if a.size < 1 or (a.cls[0] == "basic") != (self.cfg is not None and a.base == self.cfg.base):
                     out.append(("C11", None, "ask %s inconsistent (size %d, class %s, base %s)" % (a.key[:8], a.size, a.cls[0], a.base)))
